@@ -13,7 +13,7 @@ ASSUME = ["faults are injected into file-related system calls only (not memory m
           "an injected errno replaces the call (the kernel does not execute it)",
           "quick tier samples (seeded) the (index, errno) space per call; thorough enumerates all indices x catalogue",
           "tolerated failures are recognised by outcome equality with the unfaulted run, not by a site whitelist"]
-CATALOGUE = [24, 23, 12, 13, 5, 4, 38, 11, 40, 2]   # EMFILE ENFILE ENOMEM EACCES EIO EINTR ENOSYS EAGAIN ELOOP ENOENT
+CATALOGUE = [24, 23, 12, 13, 5, 4, 38, 11]   # EMFILE ENFILE ENOMEM EACCES EIO EINTR ENOSYS EAGAIN (ENOENT/ELOOP are answers, not faults: a lookup that is told "no such file" legitimately acts on it)
 
 
 def tree_shape(snap, root_only=None):
@@ -148,6 +148,8 @@ def main(tier_):
                 outcome = "ok"
             else:
                 outcome, errkind = "err", str(o[1])
+                if "capi_id" in res_j and errkind == "EXDEV":
+                    errkind = "SAFETY"      # the C ABI reports detected attacks as EXDEV (by contract)
         else:
             outcome, errkind = "panic", "no result (earlier call poisoned the worker)"
         bshape, shape = tree_shape(br["final"]), tree_shape(r["final"])
